@@ -155,6 +155,26 @@ fn main() {
     }
 
     let root = verif_root();
+    // Miri shards (thorough tier): a failed shard or an undefined-behaviour report is a violation; a run that
+    // did not complete is inconclusive
+    let mut miri_val: Option<Value> = None;
+    let mut miri_violation: Option<String> = None;
+    let mut miri_inconclusive: Option<String> = None;
+    if let Ok(p) = std::env::var("VERIF_MIRI") {
+        match std::fs::read_to_string(&p).ok().and_then(|t| serde_json::from_str::<Value>(&t).ok()) {
+            Some(v) => {
+                let failed = v["shards_failed"].as_u64().unwrap_or(0);
+                let ub = v["undefined_behaviour_reports"].as_u64().unwrap_or(0);
+                if v["ran"].as_u64() != Some(1) {
+                    miri_inconclusive = Some(format!("Miri run did not complete (see {})", v["log"].as_str().unwrap_or("")));
+                } else if failed > 0 || ub > 0 {
+                    miri_violation = Some(v["log"].as_str().unwrap_or("").to_string());
+                }
+                miri_val = Some(v);
+            }
+            None => miri_inconclusive = Some("Miri result file unreadable".into()),
+        }
+    }
     let known = findings::load(&format!("{}/known_findings.json", root));
     let mut exit_code = 0;
     let mut known_seen: Vec<String> = Vec::new();
@@ -198,7 +218,18 @@ fn main() {
         println!("  rule={} signature={}", v["rule"].as_str().unwrap_or(""), sig);
         println!("  {}", v["what"].as_str().unwrap_or(""));
     }
+    if let Some(log) = &miri_violation {
+        if replay_file.is_none() {
+            exit_code = 1;
+            new_violations += 1;
+            println!("VIOLATION property={} replay={}", prop, log);
+            println!("  rule=miri-shards signature={}.miri-shard-failed", prop);
+        }
+    }
     let mut inconclusive = rep.inconclusive.clone();
+    if let Some(m) = miri_inconclusive {
+        inconclusive.push(m);
+    }
     for pv in &part_vals {
         if let Some(arr) = pv["inconclusive"].as_array() {
             for x in arr {
@@ -236,6 +267,9 @@ fn main() {
             m.insert("evaluations".into(), json!(ev));
             m.insert("evaluations_main_build".into(), json!(rep.evaluations));
             m.insert("other_builds".into(), Value::Array(parts));
+        }
+        if let Some(mv) = &miri_val {
+            m.insert("miri".into(), mv.clone());
         }
         m.insert("known_findings_observed".into(), json!(known_seen));
         m.insert("verdict".into(), json!(match exit_code { 0 => "held on everything observed", 1 => "violated", _ => "inconclusive" }));
